@@ -41,16 +41,9 @@ WITNESSES = ["dup-option-default", "dup-builder-default", "dismissed", "rename-a
              "promote-array-to-append", "merge-rename-arguments", "map-index-unfold", "sf-opts-after-append", "add-assignment-array-to-append", "map-index-promote", "append-then-map-to-index"]
 # fixed in /repo 71b1811 (Option.DeepCopy copies Default): replayed as must-pass, a relapse is a violation
 MUST_PASS = {"dup-option-default", "dup-builder-default"}
-# Found after the coordinator's merge (scenario sequences, seed 4); sent to the coordinator for
-# /verif/known_findings.json. Used only while that file does not list the id yet; delete once merged.
-PENDING = [{
- "id": "C17/map_to_index/append-target-not-handled",
- "property": "C17",
- "what": "option.MapToIndexAction appends the index item to `option.Assignments[0].Path` whatever that path's type is: after array_to_append on a field `[]map[K]V` the option's argument is the map but the path still ends in the array, so map_to_index produces `ms[key] = m` with an index item of type V on an array of maps (same family as struct_fields_as_options after array_to_append)",
- "match": "FAIL wt-broken\\(option-map_to_index/option/index-item-type-through-array-of-maps(/after-[a-z_+]+)?\\):",
- "pinned": "0:0:pinned:append-then-map-to-index:",
- "pinned_input": "schemas: package p { S = \u2026; M = struct { ms?: []map[string]string } }; veneers (language all, package p): options: - array_to_append: {by_name: M.ms} - map_to_index: {by_name: M.ms}  ->  option ms has Args [key string, m string], path ms(array of map)[key] with index item type string"
-}]
+# deterministic regression inputs without a Lean witness term: the real code must pass the oracle and
+# agree with the model (request through the driver)
+MUST_PASS_PINNED = ["merge-into-3-segments"]
 FIXED_IDS = {"C17/duplicate-option/default-dropped", "C17/duplicate-builder/option-defaults-dropped"}
 GO_ONLY_PINNED = ["compose-then-initialize"]
 FILES = HARNESS_BASE + ["vir_builders.go", "c16_*.go", "c17_*.go"]
@@ -73,7 +66,6 @@ def main():
     c = Check("C17")
     # repaired in /repo 71b1811: these entries explain nothing any more, whatever known_findings.json still lists
     c.known = [f for f in c.known if f["id"] not in FIXED_IDS]
-    c.known += [f for f in PENDING if f["id"] not in {k["id"] for k in c.known}]
     c.trusted = [
         "Lean 4.33 kernel; axioms per theorem are listed in obligation_list (subset of propext, Classical.choice, Quot.sound)",
         "hand-written model lean/Cog/Builder/Veneers.lean of internal/veneers/{builder,option,rewrite} + internal/yaml veneer glue + internal/veneers/types.go, tied by the c17-veneer correspondence stream: generated rule files are loaded THROUGH yaml.VeneersLoader and applied by rewrite.Rewriter.ApplyTo; the model gets the same files as decoded by yaml.v3 into yaml.Veneers (second decode, same settings)",
@@ -143,6 +135,17 @@ def main():
                 c.violation({"kind": "oracle-failure", "stream": "c17-pinned", "case": case, "request": row[0], "impl": row[1], "oracle": row[2]})
         else:
             log("pinned input %s no longer fails on the real code" % name)
+        c.count("c17-pinned", 1, [case])
+
+    for name in MUST_PASS_PINNED:
+        case = "0:0:pinned:%s:" % name
+        row = harness(hb, "c17-eval", case=case)[0]
+        model = drv([row[0]])[0] if row[0] != "-" else row[1]
+        c.oblige("pinned input %s: model reply equals the real output" % name, model == row[1], (model[:300], row[1][:300]))
+        c.oblige("pinned input %s passes the oracle on the real code" % name, row[2] == "ok", row[2])
+        if row[2] != "ok" or model != row[1]:
+            c.violation({"kind": "oracle-failure" if row[2] != "ok" else "correspondence-broken", "stream": "c17-pinned", "case": case,
+                         "request": row[0], "impl": row[1], "model": model, "oracle": row[2]}, found_input=True)
         c.count("c17-pinned", 1, [case])
 
     # 2. correspondence + oracle
